@@ -29,7 +29,7 @@ ND == <<100>>
 FS == <<102, 115>>
 x == EVar(NX)
 y == EVar(NY)
-AllToks == {"D", "A", "R", "Dy", "Ry", "{", "I{", "F{", "L{", "W{", "}", "C", "C1", "S", "Q"}
+AllToks == {"D", "A", "R", "Dy", "Ry", "{", "I{", "F{", "L{", "W{", "}", "C", "C1", "S", "Q", "Dx", "Fr", "G", "Cg"}
 SmallToks == {"D", "A", "R", "{", "F{", "L{", "W{", "}", "C", "Q"}
 Openers == {"{", "I{", "F{", "L{", "W{"}
 WN(i) == <<119, 48 + (i % 10), 48 + (i \div 10)>>
@@ -46,6 +46,10 @@ Simple(t, i) ==
       [] t = "S"  -> SIf(EBin(">", EVar(ND), EInt(0)),
                          <<SOpAssign(EVar(ND), "-", EInt(1)), SExpr(ECall(EVar(NF), <<>>))>>)
       [] t = "Q"  -> SOpAssign(EVar(FS), "+", EList(<<EFunc(<<>>, FALSE, ClosureBody)>>))
+      [] t = "Dx" -> SDecl(x, EBin("+", x, EInt(1000)))                  \* the right-hand side reads the outer x
+      [] t = "Fr" -> SAssign(EVar(NF), EFunc(<<>>, FALSE, <<SPrint(EInt(777)), SReturn(EFunc(<<>>, FALSE, <<SPrint(EInt(778))>>))>>))
+      [] t = "G"  -> SDecl(EVar(<<103, 103>>), EVar(NF))                  \* gg := f
+      [] t = "Cg" -> SExpr(ECall(ECall(EVar(<<103, 103>>), <<>>), <<>>))  \* gg()()
 
 Compound(t, i, body) ==        \* a sequence of statements
     CASE t = "{"  -> <<SBlock(body)>>
@@ -95,6 +99,14 @@ Fresh ==
            <<"F{", "L{", "D", "Q", "}", "}", "C1", "C1">>, <<"L{", "F{", "D", "Q", "}", "C1", "}">>,
            <<"D", "L{", "F{", "A", "Q", "}", "C", "}", "R">> }
 
+\* a function that refers to its own name sees the live binding of that name
+SelfRef ==
+    { <<"F{", "S", "}", "G", "Fr", "Cg">>, <<"F{", "S", "}", "G", "Fr", "Cg", "C">>, <<"D", "F{", "S", "R", "}", "G", "Fr", "Cg">>,
+      <<"F{", "C1", "}", "Fr", "C1">>, <<"F{", "R", "}", "G", "D", "Cg", "Fr", "Cg", "C">>,
+      <<"{", "F{", "S", "}", "G", "Fr", "Cg", "}">>, <<"L{", "F{", "S", "}", "G", "Fr", "Cg", "}">>,
+      <<"D", "{", "Dx", "R", "}", "R">>, <<"D", "L{", "Dx", "Q", "}", "R">>, <<"D", "F{", "Dx", "}", "C", "C", "R">>,
+      <<"D", "W{", "Dx", "A", "Q", "}", "R">>, <<"Dx">>, <<"D", "I{", "Dx", "{", "Dx", "R", "}", "}">> }
+
 RandomSeqs == IF "SEED_C04_RANDOM" \in DOMAIN IOEnv THEN ndJsonDeserialize(IOEnv.SEED_C04_RANDOM) ELSE <<>>
 
 \* parameter tuples <<family, token sequence>>
@@ -103,6 +115,7 @@ C04Params ==
     \cup { <<"toks", s>> : s \in {q \in UNION {TokSeqs(n, Alphabet) : n \in 4 .. TokLen} : WellFormed(q)} }
     \cup { <<"vanish", s>> : s \in Vanish }
     \cup { <<"fresh", s>> : s \in Fresh }
+    \cup { <<"selfref", s>> : s \in SelfRef }
     \cup { <<"random", RandomSeqs[i].s>> : i \in {j \in 1 .. Len(RandomSeqs) : WellFormed(RandomSeqs[j].s)} }
 
 C04ProgOf(p) ==
